@@ -481,6 +481,12 @@ namespace BitSerializer::Convert::Detail
 	{
 		const CDateTimeParts<> utc = ParseIsoUtc(in);
 
+		// No one of target types can store such years (64-bit days are limited by ~2.5e16 years), that also prevents overflows in the calculations below
+		constexpr int64_t maxSupportedYear = 30000000000000000ll;
+		if (utc.Year > maxSupportedYear || utc.Year < -maxSupportedYear) {
+			throw std::out_of_range("Target duration is not enough");
+		}
+
 		// Based on Howard Hinnant's algorithm
 		static_assert(sizeof(int) >= 4, "This algorithm has not been ported to a 16 bit integers");
 		auto const y = utc.Year - (utc.Month <= 2);
@@ -491,12 +497,17 @@ namespace BitSerializer::Convert::Detail
 		auto const doy = (153 * (m > 2 ? m - 3 : m + 9) + 2) / 5 + d - 1;	// [0, 365]
 		auto const doe = yoe * 365 + yoe / 4 - yoe / 100 + doy;				// [0, 146096]
 
-		if (static_cast<int64_t>(era) > std::numeric_limits<int64_t>::max() / 146097ll ||
-			static_cast<int64_t>(era) < std::numeric_limits<int64_t>::min() / 146097ll)
+		// Positive eras are shifted to make both parts of the sum non-negative (the shift of epoch is less than 5 eras),
+		// negative eras are summed with a negative epoch shift, thus parts cannot overflow when the result is representable.
+		const int64_t shiftedEra = era >= 0 ? era - 5 : era;
+		const int64_t daysOffset = static_cast<int64_t>(doe) - 719468 + (era >= 0 ? 5 * 146097ll : 0);
+		if (shiftedEra > std::numeric_limits<int64_t>::max() / 146097ll || shiftedEra < std::numeric_limits<int64_t>::min() / 146097ll ||
+			(shiftedEra > 0 && shiftedEra * 146097ll > std::numeric_limits<int64_t>::max() - daysOffset) ||
+			(shiftedEra < 0 && daysOffset < 0 && shiftedEra * 146097ll < std::numeric_limits<int64_t>::min() - daysOffset))
 		{
 			throw std::out_of_range("Target duration is not enough");
 		}
-		int64_t days = era * 146097ll + (static_cast<int>(doe) - 719468);
+		int64_t days = shiftedEra * 146097ll + daysOffset;
 		auto time = static_cast<long long>(utc.Hour) * 3600 + static_cast<long long>(utc.Min) * 60 + utc.Sec;
 		// Dates before epoch are represented as sum of negative parts (start of the first day in the range may be not representable)
 		if (days < 0)
